@@ -6,7 +6,7 @@ import sqlite3
 
 from . import constraints_lib as cl
 
-SQLTYPE = {'int': ['INTEGER', 'BIGINT'], 'real': ['REAL', 'FLOAT'], 'bool': ['BOOLEAN'], 'date': ['DATETIME', 'TIMESTAMP'],
+SQLTYPE = {'int': ['INTEGER', 'BIGINT', 'INT', 'SMALLINT', 'TINYINT'], 'real': ['REAL', 'FLOAT'], 'bool': ['BOOLEAN'], 'date': ['DATETIME', 'TIMESTAMP'],
            'string': ['TEXT', 'VARCHAR']}
 
 
